@@ -55,7 +55,7 @@ class _StreamServer:
 
 
 def run(plan):
-    w = World(seed=plan.get("seed", 0))
+    w = World(seed=plan.get("seed", 0), max_iterations=60_000)
     res = Result()
     stream, payloads = build_stream(plan["ops"])
     n = len(stream)
